@@ -671,6 +671,209 @@ def run_strict_blank(run: Run, tname, n):
                           kind="blank-separated-group-absorbed")
 
 
+# --------------------------------------------------------------------------- other private tables, other routes
+
+_SERIAL = [0]
+
+
+def _fresh_name(what):
+    import os
+    _SERIAL[0] += 1
+    return "ptv_grammar_%s_%d_%d" % (what, os.getpid(), _SERIAL[0])
+
+
+def _judge(run, route, call, s, want, tbl, inp):
+    """one valid string through one route of the parser: accepted, and the documented reading"""
+    import pyparsing
+    try:
+        f = call(s)
+    except RecursionError:
+        raise
+    except (pyparsing.ParseBaseException, Exception) as e:  # noqa
+        run.violation("a string of the documented grammar is rejected by %s (%s: %s)" % (route, type(e).__name__, e),
+                      dict(inp, route=route), kind="grammar-string-rejected")
+        return None
+    for b in oracle_accepts(f, want, tbl):
+        run.violation("%s: %s" % (route, b), dict(inp, route=route), kind="wrong-composition")
+    return f
+
+
+def _must_reject(run, call, s, what, inp):
+    try:
+        f = call(s)
+    except RecursionError:
+        raise
+    except Exception:  # noqa
+        return
+    run.violation("malformed string (%s) yields a formula %s" % (what, G.show_struct(G.struct_keys(f.structure))),
+                  inp, kind="malformed-accepted", malformation=what)
+
+
+def run_subclass_table(run: Run, n):
+    """a private table that is an instance of a user's SUBCLASS of PeriodicTable (a table with a convenience
+    method added), with revised densities: strings rendered from derivations, every atom must be the atom of
+    that table, a single-atom formula has the density that table gives; through formula(table=) and
+    parse_formula(table=)"""
+    import_repo()
+    from periodictable import core, mass, density
+    from periodictable.formulas import formula, parse_formula
+
+    class LabTable(core.PeriodicTable):
+        """a private table with a convenience method added by its user"""
+        def heavy_water(self):
+            return ((2, self.D), (1, self.O))
+
+    ref = G.ref_table()
+    rng = run.rng
+    tname = "subclass"
+    try:
+        t = LabTable(_fresh_name("sub"))
+        mass.init(t)
+        density.init(t)
+        for sym in ("Fe", "C", "Si", "Na", "U"):
+            getattr(t, sym)._density = round(rng.uniform(0.5, 25.0), 3)
+    except Exception as e:  # noqa
+        run.violation("a private table of a subclass of PeriodicTable cannot be set up (%s: %s)" % (type(e).__name__, e),
+                      dict(table=tname, string="", stream="subclass-table"), kind="private-table-setup")
+        return
+    routes = (("formula(table=)", lambda s: formula(s, table=t)),
+              ("parse_formula(table=)", lambda s: parse_formula(s, table=t)))
+    cases = []
+    for sym in ["Fe", "C", "Si", "Na", "U", "D"] + rng.sample(sorted(k for k, e in ref.items() if e["z"] >= 1), 6):
+        k = (ref[sym]["z"], ref[sym]["alias"], 0)
+        cases.append((sym, ({k: Fraction(1)}, Fraction(0), None)))
+        cases.append((sym + "2@3.5", ({k: Fraction(2)}, Fraction(0), ("i", Fraction(7, 2)))))
+    for _ in range(n):
+        d = G.gen_compound(rng, ref, maxdepth=3, pb=rng.choice([0.0, 0.05]))
+        cases.append((G.text_of(G.render_compound(d)), G.den_compound(d, ref)))
+    for s, want in cases:
+        inp = dict(table=tname, string=s, stream="subclass-table")
+        run.count(key=(tname, s), nontrivial=True, tag="subclass-table")
+        for route, call in routes:
+            _judge(run, route, call, s, want, t, inp)
+    for s, what in (("Xx2O", "unknown-symbol"), ("Fe[99]2O3", "undefined-isotope"), ("Na{3+}Cl", "undefined-charge")):
+        inp = dict(table=tname, string=s, stream="subclass-table")
+        run.count(key=(tname, s), nontrivial=True, tag="subclass-table:rejected")
+        for route, call in routes:
+            _must_reject(run, call, s, what, inp)
+
+
+def run_late_isotopes(run: Run, rounds, n):
+    """the isotopes of a private table arrive AFTER strings were parsed for it: a new PeriodicTable defines
+    only D and T; strings naming H[2] / H[3] are parsed (and strings naming isotopes not yet defined are
+    rejected); then mass.init(table) adds the isotopes and a user adds further ones with add_isotope –
+    every isotope the table defines *now* can be named, whatever was parsed before"""
+    import_repo()
+    from periodictable import core, mass, density
+    from periodictable.formulas import formula
+    ref = G.ref_table()
+    rng = run.rng
+    tname = "late-isotopes"
+    zO = ref["O"]["z"]
+    heavy = [s for s, e in ref.items() if e["z"] >= 1 and not e["alias"] and e["isos"] and s != "O"]
+    for _ in range(rounds):
+        try:
+            t = core.PeriodicTable(_fresh_name("late"))
+        except Exception as e:  # noqa
+            run.violation("a private table cannot be created (%s: %s)" % (type(e).__name__, e),
+                          dict(table=tname, string="", stream="late-isotopes"), kind="private-table-setup")
+            return
+        call = lambda s: formula(s, table=t)   # noqa
+        early = [2, 3]
+        # phase 1: only H[2], H[3] (D, T) exist
+        syms = rng.sample(heavy, 4) + ["H"]
+        for _k in range(rng.randint(1, 3)):
+            a, b = rng.choice(early), rng.choice(early)
+            c = rng.randint(2, 9)
+            s = rng.choice(["H[%d]%dO" % (a, c), "H[%d]%dO + H[%d]2O" % (a, c, b), "DH[%d]%dO" % (a, c), "(H[%d]%dO)3" % (a, c)])
+            want = ref_read(s, ref)
+            inp = dict(table=tname, string=s, stream="late-isotopes", phase="before mass.init")
+            run.count(key=(tname, "pre", s), nontrivial=True, tag="late-isotopes:before")
+            try:
+                f = call(s)
+            except Exception as e:  # noqa
+                run.violation("a string of the documented grammar is rejected (%s: %s)" % (type(e).__name__, e), inp,
+                              kind="grammar-string-rejected")
+                continue
+            got = {G.key_of(x): c_ for x, c_ in f.atoms.items()}
+            if got != {k: v for k, v in want[0].items()} or atoms_in_table(f, t):
+                run.violation("atoms: documented reading %r, parsed %r" % (want[0], got), inp, kind="wrong-composition")
+        for sym in syms:
+            a = 1 if sym == "H" else rng.choice(ref[sym]["isos"])
+            s = "%s[%d]2O3" % (sym, a)
+            inp = dict(table=tname, string=s, stream="late-isotopes", phase="before mass.init")
+            run.count(key=(tname, "pre", s), nontrivial=True, tag="late-isotopes:before:rejected")
+            _must_reject(run, call, s, "undefined-isotope", inp)
+        # phase 2: the isotopes arrive
+        try:
+            mass.init(t)
+            density.init(t)
+        except Exception as e:  # noqa
+            run.violation("mass.init of a private table fails after strings were parsed for it (%s: %s)" % (type(e).__name__, e),
+                          dict(table=tname, string="", stream="late-isotopes"), kind="private-table-setup")
+            continue
+        cases = []
+        for sym in syms:
+            e = ref[sym]
+            a = rng.choice(e["isos"])
+            cases.append(("%s[%d]2O3" % (sym, a), ({(e["z"], a, 0): Fraction(2), (zO, 0, 0): Fraction(3)}, Fraction(0), None)))
+        s = "C3H4H[1]NO"
+        cases.append((s, ref_read(s, ref)))
+        tries = 0
+        while len(cases) < n + len(syms) + 1 and tries < 20 * n:
+            tries += 1
+            d = G.gen_compound(rng, ref, maxdepth=2, pb=0.0)
+            if "iso" in G.features(d):
+                cases.append((G.text_of(G.render_compound(d)), G.den_compound(d, ref)))
+        for s, want in cases:
+            inp = dict(table=tname, string=s, stream="late-isotopes", phase="after mass.init")
+            run.count(key=(tname, "post", s), nontrivial=True, tag="late-isotopes:after")
+            _judge(run, "formula(table=) after mass.init", call, s, want, t, inp)
+        # phase 3: isotopes added by the user, after the element was named in a formula
+        for sym in syms:
+            e = ref[sym]
+            new = rng.choice([max(e["isos"]) + 1, max(e["isos"]) + 7, 999, max(1, min(e["isos"]) - 1)])
+            if new in e["isos"]:
+                continue
+            s = "%s[%d]2O3" % (sym, new)
+            inp = dict(table=tname, string=s, stream="late-isotopes", phase="before add_isotope")
+            run.count(key=(tname, "user-pre", s), nontrivial=True, tag="late-isotopes:before:rejected")
+            _must_reject(run, call, s, "undefined-isotope", inp)
+            try:
+                getattr(t, sym).add_isotope(new)
+            except Exception as ex:  # noqa
+                run.violation("add_isotope fails (%s: %s)" % (type(ex).__name__, ex), inp, kind="private-table-setup")
+                continue
+            inp = dict(table=tname, string=s, stream="late-isotopes", phase="after add_isotope")
+            run.count(key=(tname, "user-post", s), nontrivial=True, tag="late-isotopes:after")
+            want = ({(e["z"], new, 0): Fraction(2), (zO, 0, 0): Fraction(3)}, Fraction(0), None)
+            _judge(run, "formula(table=) after add_isotope", call, s, want, t, inp)
+            # a number that was never defined stays rejected
+            never = max(e["isos"] + [new]) + 11
+            s = "%s[%d]2O3" % (sym, never)
+            run.count(key=(tname, "user-never", s), nontrivial=True, tag="late-isotopes:after:rejected")
+            _must_reject(run, call, s, "undefined-isotope", dict(inp, string=s))
+
+
+def run_named_route(run: Run, tname, n):
+    """the same string through formula(..., name=) – keyword and fourth positional argument: naming the
+    result does not change what the string denotes (atoms, charge, '@' density tag)"""
+    from periodictable.formulas import formula
+    ref, tbl, prefix = tables(tname)
+    rng = run.rng
+    for i in range(n):
+        d = G.gen_compound(rng, ref, maxdepth=2, pb=rng.choice([0.0, 0.05]))
+        if d["dens"] is None and rng.random() < 0.8:
+            d["dens"] = ("", G._ensure_positive(G.gen_cnt(rng, 0.0)), "", rng.choice([None, None, "n", "i"]))
+        s = G.text_of(G.render_compound(d))
+        want = G.den_compound(d, ref)
+        nm = rng.choice(["sample", "salt", "heavy water", "x"])
+        inp = dict(table=tname, string=s, stream="named", name=nm)
+        run.count(key=(tname, "named", s), nontrivial=True, tag="%s:named" % tname)
+        _judge(run, "formula(name=)", lambda s_: formula(s_, name=nm, table=tbl), s, want, tbl, inp)
+        _judge(run, "formula(positional name)", lambda s_: formula(s_, None, None, nm, tbl), s, want, tbl, inp)
+
+
 SMALL_ALPHABET = "HeO20.()[]{}+-@ n1D"
 
 
@@ -719,6 +922,8 @@ def run(run: Run) -> int:
         tasks += [(run_long_history, ("public", 3)), (run_long_history, ("private", 1))]
         tasks += [(run_reparse, ("public", 150)), (run_reparse, ("private", 50))]
         tasks += [(run_long_shallow, ("public", 12)), (run_long_shallow, ("private", 6))]
+        tasks += [(run_subclass_table, (120,)), (run_late_isotopes, (3, 25))]
+        tasks += [(run_named_route, ("public", 120)), (run_named_route, ("private", 40))]
     else:
         tasks = [(run_chunk, ("public", 5000, 2000, 4000, 4 + i % 4, "full" if i == 0 else None)) for i in range(60)]
         tasks += [(run_chunk, ("private", 4000, 1600, 3000, 4 + i % 3, "full" if i == 0 else None)) for i in range(16)]
@@ -729,6 +934,8 @@ def run(run: Run) -> int:
         tasks += [(run_long_history, ("public", 40)), (run_long_history, ("private", 20))]
         tasks += [(run_reparse, ("public", 4000)), (run_reparse, ("private", 1500))]
         tasks += [(run_long_shallow, ("public", 50)) for i in range(3)] + [(run_long_shallow, ("private", 30)) for i in range(2)]
+        tasks += [(run_subclass_table, (3000,)), (run_late_isotopes, (40, 60))]
+        tasks += [(run_named_route, ("public", 3000)), (run_named_route, ("private", 1000))]
     G.run_chunks(run, tasks)
     run.exhaustive = False
     return run.finish(RULE, assumptions=[
@@ -751,6 +958,12 @@ def replay(data) -> int:
         if (s, tname) in seen:
             continue
         seen.add((s, tname))
+        if tname not in ("public", "private") or inp.get("stream") == "named":
+            # a table built by the stream itself (subclass instance, isotopes added after the first parse) or
+            # a keyword route of formula(): the record is the replay
+            print("string %r table=%s stream=%s: %s" % (s, tname, inp.get("stream"), v.get("what", v)))
+            print("  input:", inp)
+            continue
         r, tbl, prefix = tables(tname)
         p = G.py_parse(s, tbl)
         m = G.parse_reply(G.driver(prefix + ["parse %s" % G.enc(s)])[-1])
